@@ -14,7 +14,7 @@ func init() {
 				Reach:    []string{"some call failed", "several chunks", "empty input", "second call"}, Functions: fns},
 			{Name: "query-canonical-schedule", Pkg: "queryer", Files: []string{"queryer/c11.go"}, Entry: "VerifQuery", Mode: "seq", Native: true,
 				Quick:    map[string]int{"nmax": 7, "mmax": 4},
-				Thorough: map[string]int{"nmax": 12, "mmax": 12},
+				Thorough: map[string]int{"nmax": 9, "mmax": 6},
 				Reach:    []string{"some call failed", "several chunks", "empty input", "second call"}, Functions: fns},
 			{Name: "mixed-uploads", Pkg: "queryer", Files: []string{"queryer/c11.go"}, Entry: "VerifMixedUploads", Mode: "seq",
 				Quick:    map[string]int{"nmax": 4, "mmax": 3},
